@@ -22,7 +22,8 @@ Sizes == IF Focus = "c04" THEN (IF Quick THEN {0, 1, 4, 6, 9} ELSE {0, 1, 2, 3, 
          ELSE IF Quick THEN {0, 4, 8} ELSE {0, 4, 8, 12}
 Endians == IF Focus = "c04" THEN {"le", "be"} ELSE {"le"}
 \* c03: distinct non-zero bytes; c04: ASCII letters with a NUL every fourth byte (so that read_c_string finds strings)
-DataOf(n) == IF Focus = "c04" THEN [i \in 1..n |-> IF i % 4 = 0 THEN 0 ELSE 65 + (i % 26)]
+\*      and a second NUL before every other one (so that the UTF-16 cursor reader finds a terminator pair)
+DataOf(n) == IF Focus = "c04" THEN [i \in 1..n |-> IF i % 4 = 0 \/ i % 8 = 7 THEN 0 ELSE 65 + (i % 26)]
              ELSE [i \in 1..n |-> ((37 * i + 11) % 250) + 1]
 
 CellChoices(n) ==
@@ -131,6 +132,7 @@ AccessEvents(s) ==
      \* further observers / label editing (informational conformance)
      \cup { Rec("delete_label", a, k, FALSE, <<>>, 0, "") : a \in CA, k \in {0, 1, 2} }
      \cup { Rec("s_read_label", a, k, FALSE, <<>>, 0, "") : a \in CA, k \in {0, 1, 2} }
+     \cup { Rec(o, a, 0, FALSE, <<>>, 0, "") : o \in {"s_read_sjis", "s_read_utf16"}, a \in AA }
      \cup { Rec("get_labels", 0, 0, FALSE, <<>>, 0, ""), Rec("pointer_destinations", 0, 0, FALSE, <<>>, 0, "") }
      \cup { Rec("find_label", 0, 0, FALSE, nm, 0, "") : nm \in {StrL, StrM, StrA} }
      \cup { Rec("equal_regions", a, k, FALSE, <<>>, b, "") : a \in {0, 4}, b \in {0, 4, 8}, k \in {0, 4, 5, 8} }
